@@ -1,11 +1,12 @@
 import Gomacro.EndToEnd
 import Gomacro.PgGen
+import Gomacro.RoundTrip
 /-!
 # The fragment of programs for the end-to-end theorem of C04 (acceptance)
 
 `FragmentSql`: decidable conditions under which `Props/C04E2E.lean` proves that the CHECK of a jsonb
 column admits every document Go writes for a well-typed value of the column's type. They are the
-complement of the recorded findings of C04 (omitempty, `,string`, gomacro-ignore, `[]byte`, float /
+complement of the recorded findings of C04 (`,string`, gomacro-ignore, `[]byte`, float /
 bool enums, unions behind anonymous containers or holding nil containers, two types under one
 validator name).
 -/
@@ -59,12 +60,26 @@ def memberOkSql (env : Env) (m : Ty) : Bool :=
     | none => false)
   | _ => false
 
+/-- a field the validators handle as Go writes it: no `,string`, a key encoding/json accepts, not
+hidden from the generators by gomacro-ignore; `omitempty` is inside (an omitted key is SQL NULL for
+the field's validator, which answers NULL) -/
+def fieldOkSql (f : Field) : Bool :=
+  RoundTrip.fieldOkN f && Tags.get f.tag "gomacro" != "ignore"
+
 def declOkSql (env : Env) (w : Wrappers) (d : Decl) : Bool :=
   match d.body with
-  | .named u => shapeOk u && noUnion env u && lensOk u && fnName env (.ref d.q) == fnName env u
+  | .named u =>
+    (if w.nameds.contains d.q then
+      -- a named slice / map of unions, written element-wise through the wrapper
+      (match u with
+       | .arr n (.ref uq) => decide (n = -1) && isUnionTy env (.ref uq)
+       | .map k (.ref uq) =>
+         (match k with | .basic _ .str => true | .basic _ .int => true | _ => false) && isUnionTy env (.ref uq)
+       | _ => false)
+     else shapeOk u && noUnion env u && lensOk u) && fnName env (.ref d.q) == fnName env u
   | .enum _ bk ms _ => enumOkSql bk ms
   | .struct fs _ _ =>
-    (serialised fs).all (fun f => plainField f && fieldTyOk env f && !Tags.opaqueFor f.tag "typescript" && lensOk f.ty) &&
+    (serialised fs).all (fun f => fieldOkSql f && fieldTyOk env f && !Tags.opaqueFor f.tag "typescript" && lensOk f.ty) &&
     ((serialised fs).map fun f => Tags.jsonName f.tag f.name).Nodup &&
     ((serialised fs).any (fun f => isUnionTy env f.ty) → w.structs.contains d.q)
   | .union ms => ms.all (fun m => noUnion env m && memberOkSql env m)
@@ -73,14 +88,12 @@ def providedSql (env : Env) (script : List PgFunc) (d : Decl) : Bool :=
   ((Ty.ref d.q) :: (sqlChildTys d).flatMap subTys).all (scriptHas env script)
 
 structure FragmentSql (env : Env) (w : Wrappers) (script : List PgFunc) (ds : List Decl) : Prop where
-  nameds : w.nameds = []
   found : ∀ d ∈ ds, env.find? d.q = some d
   closed : ∀ d ∈ ds, ∀ q ∈ (sqlChildTys d).flatMap Ty.refs, ∃ d' ∈ ds, d'.q = q
   ok : ∀ d ∈ ds, declOkSql env w d = true
   provided : ∀ d ∈ ds, providedSql env script d = true
 
 def fragmentSqlB (env : Env) (w : Wrappers) (script : List PgFunc) (ds : List Decl) : Bool :=
-  w.nameds.isEmpty &&
   ds.all (fun d => decide (env.find? d.q = some d)) &&
   ds.all (fun d => ((sqlChildTys d).flatMap Ty.refs).all fun q => ds.any fun d' => d'.q == q) &&
   ds.all (declOkSql env w) &&
